@@ -224,5 +224,52 @@ PROPS["C20"] = {
     "legs": [rapid("prov", "clusterp", "TestProvider", 1500, 30000, shards=(2, 12))],
 }
 
+ENG_ASSUME = [
+    "real goroutines on the real engine; the oracle only demands what holds under every interleaving, so the schedule (sampled by the Go runtime on 16 cores, not owned) can hide a violation but never fabricate one",
+    "bounded waits (30 s) only ever yield 'inconclusive' (exit 2)",
+]
+
+PROPS["C01"] = {
+    "id": "C01", "level": "exploration",
+    "rule": "generated cases: 1..8 concurrent senders (plain goroutines using Send / SendWithSender with their own sender PID, sender 0 without sender, or actors using Context.Send), "
+            "0..40 (1 case in 40: 0..1500) numbered messages each in two phases, initial inbox size from {1,2,3,4,5,8,16,64,1024}; the receiver blocks at two generated message counts until "
+            "the current phase is completely sent, so the inbox grows, wraps and splits its backlog behind it.  After a final marker (sent after every sender returned) the log must hold, "
+            "per sender, exactly its messages 0..n-1 in order with exactly its sender PID (nil stays nil), and nothing else.  Non-trivial = >=2 concurrent senders and the backlog behind "
+            "the blocked receiver exceeded the initial inbox size (the ring grew).",
+    "technique": "property-based testing (rapid) of generated sender populations and inbox geometries on the real engine; per-sender sequence oracle",
+    "level_text": "Generated-input search; interleavings of the senders are sampled by the runtime, inbox geometry (size, backlog, wrap) is generated.",
+    "level_note": "the schedule is not owned in this leg; the ring buffer's own index arithmetic is covered exhaustively for short sequences by C14",
+    "assumptions": ENG_ASSUME,
+    "legs": [rapid("deliver", "eng", "TestDelivery", 1500, 30000, shards=(2, 12))],
+}
+
+PROPS["C10"] = {
+    "id": "C10", "level": "exploration",
+    "rule": "generated histories of 1..14 ops over 3 top-level ids and 3 child ids: spawn, burst (1..8 goroutines released together spawn one id, 0..4 more spawn a second id), "
+            "awaited stop / poison, and 'duplicates over a backlog' (the incumbent is blocked in Receive with 1..20 queued messages while 1..6 goroutines spawn its id).  After every op: "
+            "the Producer of every id has run exactly as often as the model says (never for a duplicate; once per burst on a free id), Registry.GetPID and Context.GetPID are non-nil exactly "
+            "for live ids, the number of ActorDuplicateIdEvents per id equals the number of losing spawns, and the incumbent handles every queued message, in order, in the same incarnation.  "
+            "Non-trivial = a burst of >=2 concurrent spawns on one free top-level id, or a spawn of an id whose previous actor was stopped.",
+    "technique": "model-based property testing (rapid) of spawn/stop histories with concurrent spawn bursts on the real engine; counters in the Producer, sentinel-bounded event counts",
+    "level_text": "Generated-history search against an exact model of live ids, producer calls and duplicate events; the spawn race is sampled with up to 12 goroutines per burst.",
+    "level_note": "child spawns are serialised by their parent actor, so only top-level bursts race; Stop is always awaited before the next op",
+    "assumptions": ENG_ASSUME,
+    "legs": [rapid("spawns", "eng", "TestSpawns", 1500, 30000, shards=(2, 12))],
+}
+
+PROPS["C11"] = {
+    "id": "C11", "level": "exploration",
+    "rule": "generated cases: 1..32 concurrent requesters over 1..4 responders; each request carries a unique token and a responder behaviour (reply once, reply twice, no reply, reply after "
+            "Result() returned) with a 5..40 ms timeout for the silent ones and 30 s for the answered ones.  A returned value must carry the request's own token; an error is accepted only "
+            "if at least the timeout has elapsed since just before Result() was called; a silent responder must produce an error; after Result() the response PID is unregistered in both "
+            "outcomes; a reply sent afterwards produces exactly one DeadLetterEvent for that response PID carrying that reply.  Non-trivial = >=2 concurrent requests with >=2 answered and "
+            ">=1 timed-out request.  Cases in which two requests drew the same random response id are not judged (counted).",
+    "technique": "property-based testing (rapid) of concurrent request populations with token correlation; monotonic-clock lower bound for the timeout; dead-letter probe for late replies",
+    "level_text": "Generated-input search with a timing-robust oracle: only a lower bound on elapsed time and token identity are asserted.",
+    "level_note": "cross-talk through a collision of the 31-bit random response id cannot be reached without owning math/rand and is not claimed",
+    "assumptions": ENG_ASSUME + ["a responder replies at most twice before Result() is called (a third reply blocks in Response.Send, outside this property)"],
+    "legs": [rapid("req", "eng", "TestRequests", 600, 8000, shards=(2, 12))],
+}
+
 # reasons for properties that are not claimed (kept current by hand)
 NA_REASONS = {}
